@@ -64,7 +64,9 @@ func (v *BasicSeqnoValidator) validate(ctx context.Context, _ peer.ID, m *Messag
 
 	var seqno uint64
 	seqnoBytes := m.GetSeqno()
-	if len(seqnoBytes) > 0 {
+	// a sequence number shorter than 8 bytes is malformed; treat it as 0 (never accepted)
+	// instead of indexing past the end of the slice
+	if len(seqnoBytes) >= 8 {
 		seqno = binary.BigEndian.Uint64(seqnoBytes)
 	}
 
